@@ -7,4 +7,11 @@ C03R_LEGS = [
     {"name": "rt-tsan", "build": "tsan", "pkg": "vdrv", "cmd": "c03r", "shards": 4, "schedule_dependent": True,
      "args": {"quick": ["--iters", 40, "--budget-ms", 45000], "thorough": ["--iters", 1000, "--budget-ms", 420000]},
      "timeout_s": {"quick": 240, "thorough": 900}},
+    # single-driver configurations of compio-driver (io-uring only = compio's default build; polling only)
+    {"name": "rt-iour-only", "build": "plain-iour", "pkg": "vdrv", "cmd": "c03r", "shards": 3, "schedule_dependent": True,
+     "args": {"quick": ["--driver", "iour", "--iters", 60, "--budget-ms", 40000], "thorough": ["--driver", "iour", "--iters", 1500, "--budget-ms", 300000]},
+     "timeout_s": {"quick": 240, "thorough": 900}},
+    {"name": "rt-poll-only", "build": "plain-poll", "pkg": "vdrv", "cmd": "c03r", "shards": 3, "schedule_dependent": True,
+     "args": {"quick": ["--driver", "poll", "--iters", 60, "--budget-ms", 40000], "thorough": ["--driver", "poll", "--iters", 1500, "--budget-ms", 300000]},
+     "timeout_s": {"quick": 240, "thorough": 900}},
 ]
